@@ -188,6 +188,19 @@ func main() {
 					env.Exec([]string{"range", tgt, "0", "0"})
 					env.Exec([]string{"listkeys", tgt, "-"})
 					r.Count("import-into:" + tgt[:3] + "-from-" + b)
+					// life after the transfer: the simple values of some imported keys are deleted; a key that
+					// held nothing else must disappear from the range listing of its new home
+					if rng.Chance(60) {
+						nd := 0
+						for _, k := range ks {
+							if nd < 4 && rng.Chance(60) {
+								env.Exec([]string{"del", tgt, k})
+								nd++
+							}
+						}
+						env.Exec([]string{"range", tgt, "0", "0"})
+						r.Count("post-import-delete")
+					}
 				}
 			}
 		}
